@@ -48,7 +48,19 @@ class StreamGen:
                 elif k == 2:
                     evs.append([tid, c['TRACE_STRING_PROC_EXIT'], 0, name_words(rng.choice(names[:5]))])
                 elif k == 3:
-                    evs.append([tid, c['TRACE_STRING_GLOBAL'], 3, [0, rng.randint(1, 3)] + name_words(rng.choice(['gstr', 'other', 'x']))[:2]])
+                    if rng.random() < 0.5:
+                        evs.append([tid, c['TRACE_STRING_GLOBAL'], 3, [0, rng.randint(1, 3)] + name_words(rng.choice(['gstr', 'other', 'x']))[:2]])
+                    else:
+                        # a string of several records (START, continuation, END) with a record of ANOTHER class of the same
+                        # thread between them: the two pairing domains do not mix
+                        text = rng.choice(['a-global-string-that-needs-three-records-to-be-announced-x', 'y' * 40]).encode()
+                        chunks = [(0).to_bytes(8, 'little') + rng.randint(1, 3).to_bytes(8, 'little') + text[:16].ljust(16, b'\0')] + \
+                                 [text[k2:k2 + 32].ljust(32, b'\0') for k2 in range(16, len(text), 32)]
+                        for j2, ch in enumerate(chunks):
+                            q = (1 if j2 == 0 else 0) | (2 if j2 == len(chunks) - 1 else 0)
+                            evs.append([tid, c['TRACE_STRING_GLOBAL'], q, [int.from_bytes(ch[8 * k3:8 * k3 + 8], 'little') for k3 in range(4)]])
+                            if j2 == 0:
+                                evs.append([tid, c['BSC_getpid'], rng.choice([0, 3]), [1, 2, 3, 4]])
                 else:
                     evs.append([tid, c['TRACE_DATA_THREAD_TERMINATE'], 0, [tid, 0, 0, 0]])
                     evs.append([tid, c['TRACE_DATA_THREAD_TERMINATE'], 0, [tid, 0, 0, 0]])
@@ -97,4 +109,5 @@ class StreamGen:
         return [D.record(ts0 + j, ws, t, code | q) for j, (t, code, q, ws) in enumerate(evs)]
 
     def v2(self, threads, evs, pad=0):
-        return D.build_v2(threads, pad, self.records(evs))
+        # every other dump leaves left-overs after the NUL of the thread-map names (the declared name ends at the NUL)
+        return D.build_v2(threads, pad, self.records(evs), name_junk=(len(evs) % 2 == 1))
